@@ -1,11 +1,11 @@
 SPECIFICATION Spec
 CONSTANTS
-  Callers = {"a","b","c"}
-  TwoWrites = {"a","b"}
+  Callers = {"a","b","c","d"}
+  TwoWrites = {"a"}
   AtomicNextId = TRUE
   SendLock = TRUE
   DeleteOnGet = TRUE
-  HijackOnBroadcast = FALSE
+  HijackOnBroadcast = TRUE
   RefuseAfterClosed = TRUE
   SendErrDelivered = TRUE
   AllowRdFail = TRUE
@@ -13,6 +13,5 @@ CONSTANTS
   AllowCancel = FALSE
   ChanCap1 = TRUE
   KeepSlotOnCancel = TRUE
-INVARIANTS Inv_C03_OwnReply Inv_C03_DistinctIds Inv_C03_Framing Inv_C04_NotifiedOnce
-PROPERTIES Live_AllReturn
+INVARIANTS Inv_C03_OwnReply Inv_C03_DistinctIds Inv_C03_Framing Inv_C04_NotifiedOnce Inv_C03_NoSpuriousTeardown
 CHECK_DEADLOCK TRUE
